@@ -137,15 +137,31 @@ def canon_expr(e, memo=None):
             t = ["Q", sv(e[1]), sv(e[2])]
             r = (t, json.dumps(t))
         elif tag == "prod":
-            parts = sorted((canon_expr(x, memo) for x in e[1:]), key=lambda p: p[1])
-            r = (["prod"] + [p[0] for p in parts], "[prod," + ",".join(p[1] for p in parts) + "]")
+            # products as multisets; nested products flattened, unit factors dropped (x * 1 = x)
+            parts = []
+            for x in e[1:]:
+                c = canon_expr(x, memo)
+                if c[0] == "one":
+                    continue
+                if isinstance(c[0], list) and c[0][0] == "prod":
+                    parts += memo[("parts", id(c[0]))]
+                else:
+                    parts.append(c)
+            parts.sort(key=lambda p: p[1])
+            if not parts:
+                r = ("one", "one")
+            elif len(parts) == 1:
+                r = parts[0]
+            else:
+                r = (["prod"] + [p[0] for p in parts], "[prod," + ",".join(p[1] for p in parts) + "]")
+                memo[("parts", id(r[0]))] = parts
         elif tag == "sum":
             b = canon_expr(e[2], memo)
             rs = sv(e[1])
-            r = (["sum", rs, b[0]], "[sum," + json.dumps(rs) + "," + b[1] + "]")
+            r = (["sum", rs, b[0]], "[sum," + json.dumps(rs) + "," + b[1] + "]") if rs else b
         elif tag == "frac":
             n, d = canon_expr(e[1], memo), canon_expr(e[2], memo)
-            r = (["frac", n[0], d[0]], "[frac," + n[1] + "," + d[1] + "]")
+            r = n if d[0] == "one" else (["frac", n[0], d[0]], "[frac," + n[1] + "," + d[1] + "]")   # x / 1 = x
         else:
             raise ValueError(tag)
     memo[k] = (e, r)
@@ -576,6 +592,17 @@ def canon_model(case, rep):
     py = _py_out(status, val)
     if py == ["ok", m] or status != "ok" or val is None:
         return ["ok", m]
+    import time
+    if DRIFT.get("spent", 0.0) > 90.0:      # budget of the evaluation fall-back (seconds per run)
+        return ["ok", m]
+    t0 = time.time()
+    try:
+        return _same_by_evaluation(case, val, body, py, m)
+    finally:
+        DRIFT["spent"] = DRIFT.get("spent", 0.0) + time.time() - t0
+
+
+def _same_by_evaluation(case, val, body, py, m):
     try:
         gkey = json.dumps(case["g"], sort_keys=True)
         for which in (0, 1):
@@ -588,11 +615,24 @@ def canon_model(case, rep):
     return py
 
 
+def _restrict_q(q, live):
+    """drop the variables that left the graph from a bare probability (other expressions are kept as they are; the
+    oracle's hypothesis check rejects them if they no longer denote the c-factor)"""
+    if isinstance(q, list) and q and q[0] in ("P", "PP"):
+        k = 1 if q[0] == "P" else 2
+        keep = lambda vs: [[v[0], v[1], v[2], v[3], [i for i in v[4] if int(i[0]) in live]] for v in vs if int(v[1]) in live]  # noqa: E731
+        ch, pa = keep(q[k]), keep(q[k + 1])
+        if ch:
+            return q[:k] + [ch, pa]
+    return q
+
+
 def shrink(case):
     for g in G.shrink_graph(case["g"]):
         live = set(G.all_nodes(g))
         c = dict(case)
         c["g"] = g
+        c["q"] = _restrict_q(case["q"], live)
         for k in ("C", "T", "H", "A", "district", "topo"):
             if k in c:
                 c[k] = [v for v in c[k] if v in live or v >= 90]
